@@ -173,6 +173,26 @@ def execute(sc, ctx):
     _, _, obj = build(odb_state, ws, w.localfs, "md5", dry_run=True, checksum_jobs=cfg["jobs"])
     check("build-after-touch-chmod", obj.hash_info.value, obj.as_bytes())
     used_pool = executor.STATS["unordered_batches"] > pools0
+    # without a hash-state cache what is on disk gets hashed, whatever this process has hashed before: one
+    # file is rewritten in place with other bytes of the same length and its old mtime put back
+    victim = sorted(ents)[prng.randrange(len(ents))]
+    vp = os.path.join(ws, victim)
+    old_b = contents[sc["tree"][victim]]
+    if len(old_b) > 0:
+        st0 = REAL["os.stat"](vp)
+        new_b = bytes((b + 1) % 256 for b in old_b)
+        with REAL["open"](vp, "r+b") as f:
+            f.write(new_b)
+        REAL["os.utime"](vp, ns=(st0.st_mtime_ns, st0.st_mtime_ns))
+        ents_inv = dict(ents)
+        ents_inv[victim] = model.ref_digest("md5", new_b)
+        _, _, obj = build(odb_cold, ws, w.localfs, "md5", dry_run=True, checksum_jobs=cfg["jobs"])
+        routes += 1
+        if obj.hash_info.value != model.ref_dir(ents_inv)[0]:
+            ctx.violate("dir-id-differs", "build-no-state-after-invisible-rewrite", f"{victim} rewritten in place, same size and mtime")
+        with REAL["open"](vp, "r+b") as f:
+            f.write(old_b)
+        REAL["os.utime"](vp, ns=(st0.st_mtime_ns, st0.st_mtime_ns))
     # -- route 3: sub-tree extraction ---------------------------------------
     full = Tree()
     for rel, oid in ents.items():
